@@ -164,7 +164,7 @@ def specOp : Op → N → Except Err (Out × N)
   | .chmod p mode, t => mapOut (fun _ => .unit) (N.atPath p (sSetMeta fun m => { m with mode := mode }) t)
   | .touch p mt, t => mapOut (fun _ => .unit) (N.atPath p (sSetMeta fun m => { m with mtime := mt }) t)
   | .write p off b _, t => mapOut (fun _ => .unit) (N.atPath p (sWrite (writeAt off b)) t)
-  | .trunc p size, t => mapOut (fun _ => .unit) (N.atPath p (sWrite (truncTo size)) t)
+  | .trunc p size _, t => mapOut (fun _ => .unit) (N.atPath p (sWrite (truncTo size)) t)
   | .read p, t => mapOut .bytes (N.atPath p sRead t)
   | .flush p, t => mapOut (fun _ => .unit) (N.atPath p sFlush t)
   | .stat p, t => mapOut .stat (N.atPath p sStat t)
